@@ -36,6 +36,17 @@ Definition sb_cur_guard_conds : list sb_name := Eval vm_compute in map (fun p =>
 (* the parser facts the model's [sb_bind_scope] / [sb_parse_dict] transcribe *)
 Definition sb_cur_bind_scope_facts : bool := Eval vm_compute in f_sb_bind_to_scope_shape && f_sb_dict_members_bound.
 
+(* the model treats the Sandboxed flag of a frame as immutable while code runs in it: the only places under lib/ that assign a
+   member named Sandboxed (or take a handle on one) are the frame set-up sites - ScriptFrame::InitializeFrame (the inherit
+   line, exactly one site in lib/base/scriptframe.cpp) and the API/CLI entry points; nothing in the interpreter (lib/config)
+   or in any native *)
+Definition sb_sandboxed_write_files : list string :=
+  ["lib/base/scriptframe.cpp"; "lib/cli/consolecommand.cpp"; "lib/remote/consolehandler.cpp"; "lib/remote/eventqueue.cpp";
+   "lib/remote/filterutility.cpp"]%string.
+Definition sb_cur_sandboxed_flag_stable : bool := Eval vm_compute in
+  forallb (fun p => existsb (String.eqb (fst p)) sb_sandboxed_write_files &&
+                    (negb (String.eqb (fst p) "lib/base/scriptframe.cpp") || Z.eqb (snd p) 1)) f_sb_sandboxed_writes.
+
 Definition sb_cur_raw_reads : list (sb_name * sb_name) := Eval vm_compute in
   map (fun p => (sb_enc (fst p), sb_enc (snd p))) f_sb_raw_reads.
 
